@@ -235,8 +235,10 @@ fn check_listing(prop: &str, kind: &str, m: &Model, dir: Nid, l: &[crate::sess::
         if !is_dir && !live_dirty && e.len != node.data.len() as u64 {
             push(v, format!("{prop}/result/{kind}/size-differs"), format!("{name}: listed {} model {}", e.len, node.data.len()));
         }
+        // the long-name units, where an entry has any, are the name (an entry whose name is exactly its 8.3 form needs
+        // no long-name slots: that it is listed under the right name has been established above)
         let units: Vec<u16> = name.encode_utf16().collect();
-        if e.units.as_deref() != Some(&units[..]) {
+        if e.units.as_deref().map_or(false, |u| u != &units[..]) {
             push(v, format!("{prop}/result/{kind}/units-differ"), format!("{name}: units {:?}", e.units));
         }
     }
